@@ -20,6 +20,8 @@ var c17CoreControls = map[string]bool{
 	"rawinput-slurp-field": true, "usage-null-input": true, "named-rawfile-dropped": true, "argjson-name-parsed": true,
 	"go-compact-indent-1": true, "go-stderr-name": true,
 	"expr-error-object": true, "go-error-continue": true, "go-exit-0-replaced": true,
+	// round 4
+	"argdecode-decode-outside-try": true, "go-print-as-format": true,
 }
 
 func init() {
@@ -138,6 +140,11 @@ func init() {
 	add("value-output-from-unicode", "C17.modes", opt, "        if .value_output == true then true", "        if .unicode_output == true then true", "opt_eval:value_output")
 	add("at-file-off-by-one", "C17.modes", opt, "              ( .[1:]\n              | open", "              ( .[0:]\n              | open", "opt_eval:at-file")
 	add("opt-to-number-string", "C17.modes", opt, "  elif $type == \"number\" then _opt_to_number", "  elif $type == \"number\" then _opt_to_string", "opt_to:number")
+	// round 4
+	add("argdecode-decode-outside-try", "C17.handlers", ini, "        try (open | decode)\n        catch\n          ( \"--argdecode \\($a[0]): \\(.)\"\n          | _fatal_error(_exit_code_args_error)\n          )\n", "        ( try open\n          catch\n            ( \"--argdecode \\($a[0]): \\(.)\"\n            | _fatal_error(_exit_code_args_error)\n            )\n        | decode\n        )\n", "covered:_main/0:decode")
+	add("rawfile-read-outside-try", "C17.handlers", opt, "                | try (open | tobytes | tostring)\n                  catch (\"\\($f): \\(.)\" | _fatal_error(_exit_code_args_error))", "                | (try open catch (\"\\($f): \\(.)\" | _fatal_error(_exit_code_args_error)))\n                | tobytes | tostring", "covered:_opt_eval/1:tobytes")
+	add("go-print-as-format", "C17.go", "pkg/interp/interp.go", "if _, err := fmt.Fprint(w, c); err != nil {", "if _, err := fmt.Fprintf(w, fmt.Sprint(c)); err != nil {", "stdio-write:no-format")
+	add("go-print-adds-newline", "C17.go", "pkg/interp/interp.go", "if _, err := fmt.Fprint(w, c); err != nil {", "if _, err := fmt.Fprintln(w, c); err != nil {", "stdio-write:verbatim")
 	add("expr-error-object", "C17.handlers", ini, "  | if _is_string | not then tojson end\n", "", "on_expr_error:message-kind")
 	add("expr-error-only-objects", "C17.handlers", ini, "  | if _is_string | not then tojson end\n", "  | if _is_object then tojson end\n", "on_expr_error:message-kind")
 	add("expr-error-record-after-print", "C17.handlers", ini, "  | _cli_last_expr_error($err) as $_\n  | (_error_str([input_filename // empty]) | printerrln)", "  | (_error_str([input_filename // empty]) | printerrln)\n  | _cli_last_expr_error($err)", "on_expr_error:record-before-print")
